@@ -44,9 +44,10 @@ def _t6502():
     t.byte, t.word, t.res = "byt", "adr", "dfs"
     # name -> list of (opcode bytes, operand kind); operand kinds: z8 (zero/direct page), a16, r8
     t.forms = {"jmp": [([0x4C], "a16")], "jsr": [([0x20], "a16")], "lda": [([0xA5], "z8"), ([0xAD], "a16")],
-               "sta": [([0x85], "z8"), ([0x8D], "a16")], "bne": [([0xD0], "r8")], "beq": [([0xF0], "r8")]}
-    t.short = {"bne", "beq"}
-    t.maxlen = {"jmp": 3, "jsr": 3, "lda": 3, "sta": 3, "bne": 2, "beq": 2}
+               "sta": [([0x85], "z8"), ([0x8D], "a16")], "bne": [([0xD0], "r8")], "beq": [([0xF0], "r8")],
+               "bcc": [([0x90], "r8")], "bmi": [([0x30], "r8")], "bvs": [([0x70], "r8")]}
+    t.short = {"bne", "beq", "bcc", "bmi", "bvs"}
+    t.maxlen = {"jmp": 3, "jsr": 3, "lda": 3, "sta": 3, "bne": 2, "beq": 2, "bcc": 2, "bmi": 2, "bvs": 2}
     return t
 
 
@@ -60,11 +61,12 @@ def _t6809():
                # program-counter relative indexed operands, 8 or 16 bit offset chosen by the assembler
                "lda.pcr": [([0xA6, 0x8C], "r8"), ([0xA6, 0x8D], "r16")], "leax.pcr": [([0x30, 0x8C], "r8"), ([0x30, 0x8D], "r16")],
                "jmp.pcr": [([0x6E, 0x8C], "r8"), ([0x6E, 0x8D], "r16")]}
-    t.short = {"bra", "bne"}
-    t.near16 = {"lbra", "lbsr", "lda.pcr", "leax.pcr", "jmp.pcr"}
+    t.forms.update({"bsr": [([0x8D], "r8")], "lbne": [([0x10, 0x26], "r16")]})
+    t.short = {"bra", "bne", "bsr"}
+    t.near16 = {"lbra", "lbsr", "lbne", "lda.pcr", "leax.pcr", "jmp.pcr"}
     t.alias = {"lda.pcr": "lda", "leax.pcr": "leax", "jmp.pcr": "jmp"}
     t.suffix = {"lda.pcr": ",pcr", "leax.pcr": ",pcr", "jmp.pcr": ",pcr"}
-    t.maxlen = {"lda": 3, "ldx": 3, "jmp": 3, "jsr": 3, "bra": 2, "bne": 2, "lbra": 3, "lbsr": 3, "lda.pcr": 4, "leax.pcr": 4, "jmp.pcr": 4}
+    t.maxlen = {"lda": 3, "ldx": 3, "jmp": 3, "jsr": 3, "bra": 2, "bne": 2, "lbra": 3, "lbsr": 3, "lda.pcr": 4, "leax.pcr": 4, "jmp.pcr": 4, "bsr": 2, "lbne": 4}
     return t
 
 
@@ -73,9 +75,14 @@ def _t6811():
     t.name, t.cpu, t.org, t.be, t.align = "68hc11", "6811", [0x10, 0xE0, 0x400, 0x8000], True, 1
     t.byte, t.word, t.res = "fcb", "fdb", "rmb"
     t.forms = {"ldaa": [([0x96], "z8"), ([0xB6], "a16")], "ldx": [([0xDE], "z8"), ([0xFE], "a16")],
-               "jmp": [([0x7E], "a16")], "jsr": [([0x9D], "z8"), ([0xBD], "a16")], "bra": [([0x20], "r8")], "bne": [([0x26], "r8")]}
-    t.short = {"bra", "bne"}
-    t.maxlen = {"ldaa": 3, "ldx": 3, "jmp": 3, "jsr": 3, "bra": 2, "bne": 2}
+               "jmp": [([0x7E], "a16")], "jsr": [([0x9D], "z8"), ([0xBD], "a16")], "bra": [([0x20], "r8")], "bne": [([0x26], "r8")],
+               "bsr": [([0x8D], "r8")],
+               # bit test and branch: the displacement is the fourth byte
+               "brset.d": [([0x12, 0x10, 0x01], "r8")], "brclr.d": [([0x13, 0x10, 0x01], "r8")], "brset.x": [([0x1E, 0x05, 0x02], "r8")]}
+    t.short = {"bra", "bne", "bsr", "brset.d", "brclr.d", "brset.x"}
+    t.alias = {"brset.d": "brset", "brclr.d": "brclr", "brset.x": "brset"}
+    t.prefix = {"brset.d": "$10,#1,", "brclr.d": "$10,#1,", "brset.x": "5,x,#2,"}
+    t.maxlen = {"ldaa": 3, "ldx": 3, "jmp": 3, "jsr": 3, "bra": 2, "bne": 2, "bsr": 2, "brset.d": 4, "brclr.d": 4, "brset.x": 4}
     return t
 
 
@@ -89,14 +96,15 @@ def _t68k():
                # d16(PC) operands: the displacement counts from the extension word, wherever in the instruction it sits
                "lea.pc": [([0x41, 0xFA], "pcw")], "jmp.pc": [([0x4E, 0xFA], "pcw")], "jsr.pc": [([0x4E, 0xBA], "pcw")],
                "pea.pc": [([0x48, 0x7A], "pcw")], "move.pc": [([0x30, 0x3A], "pcw")], "btsti.pc": [([0x08, 0x3A, 0x00, 0x03], "pcw")],
-               "btstd.pc": [([0x03, 0x3A], "pcw")], "cmp.pc": [([0xB0, 0x7A], "pcw")], "movem.pc": [([0x4C, 0xBA, 0x00, 0x03], "pcw")]}
+               "btstd.pc": [([0x03, 0x3A], "pcw")], "cmp.pc": [([0xB0, 0x7A], "pcw")], "movem.pc": [([0x4C, 0xBA, 0x00, 0x03], "pcw")],
+               "dbra": [([0x51, 0xC8], "pcw")]}
     t.short = set()
-    t.near16 = {"lea.pc", "jmp.pc", "jsr.pc", "pea.pc", "move.pc", "btsti.pc", "btstd.pc", "cmp.pc", "movem.pc"}
+    t.near16 = {"lea.pc", "jmp.pc", "jsr.pc", "pea.pc", "move.pc", "btsti.pc", "btstd.pc", "cmp.pc", "movem.pc", "dbra"}
     t.alias = {"lea.pc": "lea", "jmp.pc": "jmp", "jsr.pc": "jsr", "pea.pc": "pea", "move.pc": "move.w", "btsti.pc": "btst", "btstd.pc": "btst",
                "cmp.pc": "cmp.w", "movem.pc": "movem.w"}
-    t.prefix = {"btsti.pc": "#3,", "btstd.pc": "d1,"}
+    t.prefix = {"btsti.pc": "#3,", "btstd.pc": "d1,", "dbra": "d0,"}
     t.maxlen = {"bra": 4, "bsr": 4, "bne": 4, "beq": 4, "jmp": 6, "jsr": 6, "lea": 6, "move.w": 6, "lea.pc": 4, "jmp.pc": 4, "jsr.pc": 4, "pea.pc": 4,
-                "move.pc": 4, "btsti.pc": 6, "btstd.pc": 4, "cmp.pc": 4, "movem.pc": 6}
+                "move.pc": 4, "btsti.pc": 6, "btstd.pc": 4, "cmp.pc": 4, "movem.pc": 6, "dbra": 4}
     t.suffix = {"lea": ",a0", "move.w": ",d0", "lea.pc": "(pc),a0", "jmp.pc": "(pc)", "jsr.pc": "(pc)", "pea.pc": "(pc)", "move.pc": "(pc),d0",
                 "btsti.pc": "(pc)", "btstd.pc": "(pc)", "cmp.pc": "(pc),d0", "movem.pc": "(pc),d0/d1"}
     return t
@@ -106,9 +114,10 @@ def _t8086():
     t = T()
     t.name, t.cpu, t.org, t.be, t.align = "8086", "8086", [0x100, 0x1000, 0x7F00], False, 1
     t.byte, t.word, t.res = "db", "dw", "ds"
-    t.forms = {"jmp": [([0xEB], "r8"), ([0xE9], "r16")], "call": [([0xE8], "r16")], "jz": [([0x74], "r8")], "jnz": [([0x75], "r8")]}
-    t.short = {"jz", "jnz"}
-    t.maxlen = {"jmp": 3, "call": 3, "jz": 2, "jnz": 2}
+    t.forms = {"jmp": [([0xEB], "r8"), ([0xE9], "r16")], "call": [([0xE8], "r16")], "jz": [([0x74], "r8")], "jnz": [([0x75], "r8")],
+               "loop": [([0xE2], "r8")], "jcxz": [([0xE3], "r8")]}
+    t.short = {"jz", "jnz", "loop", "jcxz"}
+    t.maxlen = {"jmp": 3, "call": 3, "jz": 2, "jnz": 2, "loop": 2, "jcxz": 2}
     return t
 
 
@@ -188,6 +197,10 @@ def gen_layout(rng, tname=None):
         if it[0] == "ref" and (it[1] in t.short or (t.name == "68000" and it[1] in ("bra", "bsr", "bne", "beq"))
                                or (t.name == "8086" and it[1] in ("jmp", "call")) or it[1] in getattr(t, "near16", ())):
             lim = 100 if it[1] in t.short else 30000
+            if rng.chance(0.04):
+                # any label, in range or not: an unreachable target has to be rejected, never encoded into something else
+                out.append(it)
+                continue
             cands = [l for l, p in labpos.items() if abs(p - pos[i]) <= lim]
             if not cands:
                 # no encodable target: use an absolute form instead
